@@ -55,9 +55,15 @@ static void do_sync(void)
 {
 	int t = vrt_tid(), i = (int)vrt_note_inc(N_NGP(t));
 
+	int before = rcu_read_ongoing();
+
 	vrt_note_set(N_GPC(t, i), vrt_now() + 1);	/* first step of the call */
 	synchronize_rcu();
 	vrt_note_set(N_GPR(t, i), vrt_now());
+	/* qsbr: rcu_read_ongoing() tells whether the thread is online; a caller that was online is a reader again as soon
+	 * as the call returns (leader or merged waiter alike), otherwise its following reads are unprotected */
+	VRT_CHECK(!!rcu_read_ongoing() == !!before, "synchronize_rcu() changed the caller's read-side state: rcu_read_ongoing() was %d before "
+		  "the call and is %d after it", !!before, !!rcu_read_ongoing());
 }
 
 static void check_intervals(const char *what)
@@ -341,10 +347,31 @@ static void *rd_merged(void *a)
 
 static void *upd2(void *a)
 {
+	int reg = (int)vrt_param("upd_registered", 0), r0 = 0, r1 = 0;
+
 	(void)a;
+#ifdef FLAVOR_BP
+	reg = 0;
+#endif
+	if (reg)
+		rcu_register_thread();
 	ST(x2, 1);
 	do_sync();
 	ST(y2, 1);
+	if (reg) {
+		/* a registered (qsbr: online) caller is itself a reader right after its synchronize_rcu() returns */
+		int s;
+
+		RD_LOCK();
+		s = sec_begin();
+		r0 = LD(x);
+		MID();
+		r1 = LD(y);
+		sec_end(s);
+		RD_UNLOCK();
+		VRT_CHECK(!(r0 == 0 && r1 == 1), "merged: a registered caller of synchronize_rcu() then saw y=1 but x=0 in its own section");
+		rcu_unregister_thread();
+	}
 	return NULL;
 }
 
@@ -404,7 +431,21 @@ static void run_two_sections(void)
 	check_intervals("two_sections");
 }
 
-static void *upd_plain(void *a) { (void)a; do_sync(); return NULL; }
+static void *upd_plain(void *a)
+{
+	int reg = (int)vrt_param("upd_registered", 0);
+
+	(void)a;
+#ifdef FLAVOR_BP
+	reg = 0;
+#endif
+	if (reg)
+		rcu_register_thread();
+	do_sync();
+	if (reg)
+		rcu_unregister_thread();
+	return NULL;
+}
 
 static void run_three_callers(void)
 {
@@ -1040,6 +1081,30 @@ static void run_solo_reader(void)
 	check_intervals("solo_reader");
 }
 
+#ifdef FLAVOR_BP
+/* bp: the fork handlers may be called while other threads run grace periods and read-side sections (no fork needed to
+ * see a lock-order problem between the handlers and synchronize_rcu) */
+static void run_bp_fork_handlers(void)
+{
+	pthread_t r, u;
+	int n = (int)vrt_param("n", 1), i;
+
+	rcu_read_lock();
+	rcu_read_unlock();
+	pthread_create(&r, NULL, rd_basic, (void *)0L);
+	wait_readers(1);
+	pthread_create(&u, NULL, upd_victim, NULL);
+	for (i = 0; i < n; i++) {
+		urcu_bp_before_fork();
+		urcu_bp_after_fork_parent();
+	}
+	pthread_join(u, NULL);
+	pthread_join(r, NULL);
+	VRT_CHECK(!(r(0) == 0 && r(1) == 1), "bp_fork_handlers: x=0 then y=1");
+	check_intervals("bp_fork_handlers");
+}
+#endif
+
 struct vrt_scenario vrt_scenarios[] = {
 	{ "basic", run_basic, "reader || updater" },
 #ifndef FLAVOR_QSBR
@@ -1056,6 +1121,9 @@ struct vrt_scenario vrt_scenarios[] = {
 #endif
 	{ "rereg", run_rereg, "reader registers/unregisters/re-registers around grace periods" },
 	{ "solo_reader", run_solo_reader, "C17: read-side primitives of a registered thread with the updater frozen at every step" },
+#ifdef FLAVOR_BP
+	{ "bp_fork_handlers", run_bp_fork_handlers, "bp: before_fork / after_fork_parent || synchronize_rcu || reader" },
+#endif
 	{ "leave_block", run_leave_block, "a thread that left (unregistered/offline/exited) is not waited for" },
 	{ "churn", run_churn, "n readers come and go around a grace period (bp: registry growth)" },
 	{ "slot_hole", run_slot_hole, "a reader exits while a later one is alive in a section; a new one registers" },
